@@ -159,7 +159,8 @@ class Explorer:
             try:
                 m, ce = self.repo.const_expr(k)
                 v = self.repo.fold(m, ce, symbolic=True)
-                if isinstance(v, (int, float, str, bytes, tuple, bool, dict, frozenset)) or v is None:
+                from .index import Regex as _Rx
+                if isinstance(v, (int, float, str, bytes, tuple, bool, dict, frozenset, _Rx)) or v is None:
                     return v
                 if isinstance(v, (list, set)):
                     return tuple(v) if isinstance(v, list) else frozenset(v)
@@ -400,6 +401,20 @@ class Explorer:
                 try:
                     return {"any": any, "all": all, "sum": sum, "sorted": lambda x: tuple(sorted(x)), "list": tuple, "tuple": tuple}[e.func.id](v)
                 except Exception:
+                    return UNKNOWN
+            if isinstance(e.func, ast.Attribute) and e.func.attr in ("fullmatch", "match", "search") and len(e.args) == 1 and not e.keywords:
+                # a pattern constant of the repository applied to a known string: the (pure) regular-expression library
+                # decides; the pattern is data, no repository code runs
+                from .index import Regex as _Rx
+                rx = self.ev(e.func.value, env)
+                if isinstance(rx, _Rx):
+                    arg = self.ev(e.args[0], env)
+                    if isinstance(arg, (str, bytes)) and type(arg) is type(rx.pattern):
+                        import re as _re
+                        try:
+                            return getattr(_re.compile(rx.pattern, rx.flags), e.func.attr)(arg)
+                        except Exception:
+                            return UNKNOWN
                     return UNKNOWN
             if isinstance(e.func, ast.Attribute) and e.func.attr in PURE_METHODS and not e.keywords:
                 recv = self.ev(e.func.value, env)
